@@ -48,6 +48,19 @@ func init() {
 					return true
 				})
 			}
+			// … or call one that does (helpers extracted from the raise), two levels
+			for round := 0; round < 2; round++ {
+				for _, g := range p.FnList {
+					if g.Short != "manager" || g.Lit != nil || g.Body() == nil || raises[g] {
+						continue
+					}
+					for _, c := range callsIn(g.Body()) {
+						if fn := p.Callee(g.Pkg, c); fn != nil && raises[p.FnOfObj(fn)] {
+							raises[g] = true
+						}
+					}
+				}
+			}
 			info := jf.Pkg.TypesInfo
 			isErr := func(e ast.Expr) bool {
 				t := info.TypeOf(e)
